@@ -107,7 +107,7 @@ theorem getD_set_self {τ : List Ty} {i : Nat} {x d : Ty} (h : i < τ.length) : 
   simp [List.getD, h]
 
 theorem getD_set_ne {τ : List Ty} {i j : Nat} {x d : Ty} (h : i ≠ j) : (τ.set i x).getD j d = τ.getD j d := by
-  simp [List.getD, List.getElem?_set, h]
+  simp [List.getD, h]
 
 theorem TInv.update {uf : List Ty} {r : Nat → Nat} {τ : List Ty} (h : TInv uf r τ) {i : Nat} (hi : i < uf.length)
     {d : Nat} (hb : Bnd uf r τ i (d + 1)) :
